@@ -52,7 +52,7 @@ theorem stream_block_conforms (hashOf : Array UInt8 → Bool → Nat → Nat) (o
     (blk : List UInt8) (hop : ops[k]? = some (.compress addr data acc cap)) (h : (run hashOf {} ops)[k]? = some (.block (some blk))) :
     ∃ seqs last, blk = serialize seqs last ∧ ValidParse (histAt [] ops k) seqs last (histAt [] ops k ++ data.toList) ∧
       (∀ s ∈ seqs, 4 ≤ s.ml ∧ 1 ≤ s.off ∧ s.off ≤ 65535) ∧ endConditions seqs last = true ∧ covered seqs last = data.size := by
-  obtain ⟨seqs, last, e, hwf, hv, h1, h2, h3⟩ := run_parsed hashOf ops {} [] JX_init (IsTail.refl _) k addr data acc cap blk hop h [] _ rfl (Or.inl rfl)
+  obtain ⟨seqs, last, e, hwf, hv, h1, h2, h3⟩ := run_parsed hashOf ops {} [] Inv_init k addr data acc cap blk hop h [] _ rfl (Or.inl rfl)
   exact ⟨seqs, last, e, hv, fun s hs => ⟨(hwf s hs).1, h1 s hs, by have := (hwf s hs).2; omega⟩, h2, by rw [h3, Array.length_toList]⟩
 
 end LZ4V.C06
